@@ -30,6 +30,8 @@ def expectedConstants : List (String × Nat) := [
 theorem constants_match : Gen.constants = expectedConstants := by decide
 
 def expectedSkeleton : List (String × List String) := [
+  ("Run.readOnlyCheck", ["if $in.readOnly", "if operation.writes || (op == CALL && stack.Back(2).Sign() != 0)", "return nil, nil, ErrWriteProtection"]),
+  ("Run.readOnlyEntry", ["if $ro && !$in.readOnly", "$in.readOnly = true", "defer $in.readOnly = false"]),
   ("authCallGas", []),
   ("callGas", []),
   ("gasAuthCall", ["B3", "B2", "memoryGasCost", "SafeAdd", "authCallGas", "B1", "SafeAdd"]),
@@ -70,7 +72,11 @@ def expectedSkeleton : List (String × List String) := [
 
 /-- which stack positions each memory-size / gas function reads, which helpers it
     calls and with which constants, in source order (go/ast), is what was transcribed;
-    in particular the four magnifications that can exceed 2^64 go through `SafeMul` -/
+    in particular the four magnifications that can exceed 2^64 go through `SafeMul`.
+    `Run.readOnlyEntry` / `Run.readOnlyCheck` pin the read-only discipline of the loop that the
+    model renders by passing `ro` down functionally: the interpreter-wide flag is set only if
+    not already set (`$ro && !$in.readOnly`) and reset only by the frame that set it (the
+    deferred `$in.readOnly = false` inside that `if`), and the per-iteration write test. -/
 theorem source_skeleton_matches : Gen.sourceSkeleton = expectedSkeleton := by decide
 
 def Exec.isUnknown : Exec → Bool | .unknown => true | _ => false
@@ -174,6 +180,29 @@ def entryWrites (o : OpInfo) : Bool :=
   | _ => true
 
 theorem writers_flagged : allEntries entryWrites = true := by decide +kernel
+
+/-- Full statement of "every state-writing operation is refused in a read-only frame by the
+    loop's `writes` test": every entry whose `execute` mutates the state carries the flag.
+    (TSTORE tests `readOnly` itself and CALL-with-value is tested by the loop: `Props.C11D`.) -/
+def entryStaticGuard (o : OpInfo) : Bool :=
+  match o.exec with
+  | .sstore | .log _ | .create | .create2 | .selfdestruct | .authcall => o.writes
+  | _ => true
+
+def FullStatementStaticGuard : Prop := allEntries entryStaticGuard = true
+
+/-- proved part: everything except AUTHCALL (= `writers_flagged`) -/
+theorem static_guard_partial :
+    allEntries (fun o => match o.exec with | .authcall => true | _ => entryStaticGuard o) = true := by
+  decide +kernel
+
+/-- **the full statement is false of the code**: AUTHCALL (0xf7, Proposal014 table) has no `writes`
+    flag and is not covered by the loop's value test (which names CALL only), although
+    `evm.AuthCall` bumps the authorised account's nonce and transfers the value from the sponsor.
+    Replayed on the implementation: known finding `authcall-writes-inside-static`. -/
+theorem static_guard_counterexample : ¬ FullStatementStaticGuard := by
+  unfold FullStatementStaticGuard
+  decide +kernel
 
 /-- DUPn / SWAPn have n ≥ 1 (the transcription's `n = 0` branch is dead) -/
 def entryDupSwap (o : OpInfo) : Bool :=
